@@ -134,6 +134,41 @@ def reweight (counts : Array Nat) (edges : Array (List Edge)) (sons : Array Nat)
   let s0 : RW := { weight := counts, added := Array.replicate counts.size 0 }
   (innerLoop counts edges sons (counts.size + 2) (leafPass counts edges sons s0)).map (·.weight)
 
+/-! ## closed form of the weights (the theorems are in Lemmas/CleanWeight.lean and Props/C13W.lean)
+
+`rfunc(i)` hands `round(Weight i * Count f / swf i)` to every father `f` of row `i`, and a row fires once all its sons
+have fired: the weights solve `W k = count k + Σ_{edges i → k} round(W i * count k / swf i)`. On the graph of
+`buildSamplePairs` every edge points further down, so the solution is computed row after row. -/
+
+/-- the fathers of row `i` -/
+def fathers (edges : Array (List Edge)) (i : Nat) : List Nat := (edges.getD i []).map (·.father)
+
+/-- `swf` of `rfunc(i)` : the sum of the counts of the fathers of row `i` -/
+def swf (counts : Array Nat) (edges : Array (List Edge)) (i : Nat) : Nat :=
+  ((edges.getD i []).map (fun e => counts.getD e.father 0)).sum
+
+/-- one share: `int(math.Round(float64(w) * float64(count f) / swf))` of `rfunc(k)` for the father `f` -/
+def share (counts : Array Nat) (edges : Array (List Edge)) (k w f : Nat) : Nat :=
+  roundDiv (w * counts.getD f 0) (swf counts edges k)
+
+/-- what row `i` hands to row `j` when it fires with weight `w`: one share for each of its edges to `j` -/
+def given (counts : Array Nat) (edges : Array (List Edge)) (i w j : Nat) : Nat :=
+  (fathers edges i).count j * share counts edges i w j
+
+/-- the first `m` weights, row after row -/
+def specTable (counts : Array Nat) (edges : Array (List Edge)) : Nat → List Nat
+  | 0 => []
+  | k + 1 =>
+    let t := specTable counts edges k
+    t ++ [counts.getD k 0 + ((List.range k).map (fun i => given counts edges i (t.getD i 0) k)).sum]
+
+/-- **the closed form**: `specW k = count k + Σ_{i < k} given i (specW i) k` (`specW_eq`) -/
+def specW (counts : Array Nat) (edges : Array (List Edge)) (k : Nat) : Nat :=
+  (specTable counts edges (k + 1)).getD k 0
+
+/-- the weights of the `n` rows of a sample by the closed form (the driver compares them with the loop) -/
+def specWeights (counts : Array Nat) (edges : Array (List Edge)) : List Nat := specTable counts edges counts.size
+
 /-! ## extendSimilarityGraph -/
 
 /-- the body of the inner loop of `linePairs` of `extendSimilarityGraph` for (son `i`, father `j`); no test on the counts -/
